@@ -203,7 +203,7 @@ def run_check(prop_id, tier, master_seed, package_dir, workers=None, only_plan=F
                     index, task = pending.pop(fut)
                     summary = fut.result()
                     summary["index"] = index
-                    summary["task"] = task
+                    summary["task"] = summary.pop("resolved_task", None) or task
                     summaries.append(summary)
         except concurrent.futures.process.BrokenProcessPool as exc:
             harness_errors.append("worker died (watchdog or crash of the interpreter): %r" % (exc,))
